@@ -8,7 +8,7 @@ from . import kj
 HERE = os.path.dirname(os.path.abspath(__file__))
 CPPDIR = os.path.join(kj.REPO, "kojen", "allplatforms", "CPP")
 SAN = ["-fsanitize=address,undefined", "-fno-sanitize-recover=undefined"]
-ENV = dict(os.environ, ASAN_OPTIONS="detect_leaks=1:abort_on_error=0:allocator_may_return_null=0", UBSAN_OPTIONS="print_stacktrace=0")
+ENV = dict(os.environ, ASAN_OPTIONS="detect_leaks=1:abort_on_error=0:allocator_may_return_null=0:quarantine_size_mb=8:thread_local_quarantine_size_kb=64", UBSAN_OPTIONS="print_stacktrace=0")
 
 
 def hx(b):
